@@ -12,9 +12,7 @@ import GardenVerif.Lemmas.RefSem
 * per-lint schema soundness on `RefSem` (what each fix CLAIMS to do), exact in fuel:
   `unused_literal_stmt_sound` (a literal statement that is not the last of its block can be dropped),
   `unnecessary_let_sound` (`let x = e; x` at the end of a block has the value and output of `e`),
-  `repeated_bool_sound` (`(a op b) op a = a op b` on Bool values for `&&` / `||`, garden's operators being strict),
-  `unused_variable_value_sound` (`let x = e` → `e` as a statement when nothing reads `x` afterwards: here the local
-  step — the rest of the block runs with the same store contents and output).
+  `repeated_bool_sound` (`(a op b) op a = a op b` on Bool values for `&&` / `||`, garden's operators being strict).
   NOT PROVED (full statement): the lift of these local equalities through arbitrary program contexts
   (`fix_schema_sound : IsFixSchema p p' → ∀ r, Terminates p r ↔ Terminates p' r`); it needs fuel monotonicity of
   `RefSem` plus a congruence argument per node kind. Per input the direct oracle runs the real evaluator on the
@@ -54,7 +52,7 @@ example : applyFixesSorted [0, 1, 2, 3, 4, 5, 6] [⟨4, 6, [9, 9, 9]⟩, ⟨1, 2
 
 /-- Overlapping fixes are NOT the simultaneous substitution (why the precondition matters):
 deleting 1..4 and replacing 2..3 leaves a stale offset. -/
-example : applyFixesSorted [0, 1, 2, 3, 4, 5] [⟨2, 3, [7, 7, 7]⟩, ⟨1, 4, []⟩] = some [0, 7, 4, 5] := by decide
+example : applyFixesSorted [0, 1, 2, 3, 4, 5] [⟨2, 3, [7, 7, 7]⟩, ⟨1, 4, []⟩] = some [0, 7, 3, 4, 5] := by decide
 
 /-- Removing an unused INT literal statement (not the last statement of its block). -/
 theorem unused_literal_stmt_sound (cl : Bool) (p : Program) (n : Nat) (env : Env) (s : RefSem.St)
